@@ -6,6 +6,7 @@ import TvFs.Props.C07
 #print axioms TV.C07.C07_witness_staleHandle
 #print axioms TV.C07.C07_witness_rmdirRenamedIn
 #print axioms TV.C07.C07_witness_crossDirRename
+#print axioms TV.C07.C07_partial
 #print axioms TV.C07.crash_idempotent
 #print axioms TV.C07.synced_never_lost
 #print axioms TV.C07.unsynced_entry_lost
